@@ -43,7 +43,7 @@ def rule_permit_before_buffer(ctx):
         sz_acq = [x for c, x in acq if sem_of(x) == "size"]
         oks = bool(sz_acq) and all(q[2][0] == "cast" and q[2][1] == size or q[2] == size for q in sz_acq)
         ctx.ob(R, "permit amount = buffer size", oks, "the byte permits acquired equal the size that is allocated and read" if oks else "byte permits %s vs allocated %s" % ([show(q[2]) for q in sz_acq], show(size)), f.loc())
-        okm = size[0] == "call" and size[1] == "std::cmp::min" and any("read_frame_size" in show(x) for x in size[2])
+        okm = size[0] == "call" and size[1] in ("std::cmp::min", "std::cmp::Ord::min") and any("read_frame_size" in show(x) for x in size[2])
         ctx.ob(R, "size bounded by read_frame_size", okm, "size = min(remaining, cfg.read_frame_size)" if okm else "allocated size term: %s" % show(size)[:100], f.loc())
     for c, a in sends:
         fr = a[1]
